@@ -1,4 +1,5 @@
 import Flurry.Props.C10Arith
+import Flurry.Gen.Atomics
 import Flurry.Lemmas.Resize
 /-! # C10 — cooperative resizing: no overlap, single publication, full completion
 
@@ -86,6 +87,36 @@ theorem join_admits_current_generation (hr : Reachable n nthreads stride s) {t c
     l.heldGen = s.gen ∧ ∃ k, sc = .resizing s.gen k ∧ 2 ≤ k ∧ s'.sizeCtl = .resizing s.gen (k + 1) ∧
       ∃ l', s'.threads = s.threads.set t l' ∧ participating l' = true ∧ l'.heldGen = s'.gen :=
   join_step_current hr hl hpc hs hne
+
+/-! ### the order of `transfer`'s stores per bin (generated from the source)
+
+Moving one bin is, under the bin's lock: build the two new bins, **store them into the next table,
+then store the forwarding marker into the old table, then retire what was copied**. Forwarding
+first lets a writer follow the marker, insert into the still empty new bin and be overwritten by
+the late fill (a lost insert); retiring first hands nodes to the collector that the old bin still
+links. `transferOrder` is the sequence of `lock` / `fill` / `forward` / `retire` calls of
+`transfer` in source order. -/
+section Order
+open Flurry.Gen
+
+/-- the calls that follow each `lock`, up to the next `lock` -/
+def segmentsAfterLocks (l : List String) : List (List String) :=
+  (l.splitBy (fun _ b => b != "lock")).filterMap fun seg =>
+    match seg with
+    | "lock" :: rest => some rest
+    | _ => none
+
+/-- fill, fill, forward, then nothing but retirements -/
+def migrationOrderOk (seg : List String) : Bool :=
+  match seg with
+  | "fill" :: "fill" :: "forward" :: rest => rest.all (· == "retire")
+  | _ => false
+
+theorem fill_then_forward_then_retire :
+    (segmentsAfterLocks transferOrder).all migrationOrderOk = true ∧
+    2 ≤ (segmentsAfterLocks transferOrder).length := by decide
+
+end Order
 
 /-! ### the tie between the generated refusal test and the model's `helpRefuses true` -/
 section Tie
